@@ -1668,9 +1668,16 @@ EnsureSizeAux(uint32 size, bool setNumItems, uint32 extraPreallocs, ItemType ** 
       // Force ourselves to contain exactly the required number of items
       if (size > _itemCount)
       {
-         // We can do this quickly because the "new" items are already initialized properly
+         // For item-types that are cleared when they are removed, the "new" items are already initialized properly;
+         // for the others (trivial types), the slots may still hold previously-removed values, so reset them now.
+         const uint32 oldItemCount = _itemCount;
          _tailIndex = PrevIndex(InternalizeIndex(size));
          _itemCount = size;
+         if (IsPerItemClearNecessary() == false)
+         {
+            const ItemType & defaultItem = GetDefaultItem();
+            for (uint32 i=oldItemCount; i<size; i++) GetItemAtUnchecked(i) = defaultItem;
+         }
       }
       else (void) RemoveTailMulti(_itemCount-size);
    }
